@@ -423,10 +423,12 @@ class Gen:
             elif p["k"] == "b":
                 args.append(self.b(d, sc))
             elif p["k"] == "ref":
-                cands = [v for v in sc.get(p["t"], []) if v in sc.get("svs", set())]
+                cands = [["ref", v] for v in sc.get(p["t"], []) if v in sc.get("svs", set())]
+                # forwarding one of the caller's own by-reference parameters
+                cands += [["refparam", j] for j, q in enumerate(sc.get("params", [])) if q["k"] == "ref" and q["t"] == p["t"]] * 2
                 if not cands:
                     return None
-                args.append(["ref", rng.choice(cands)])
+                args.append(rng.choice(cands))
             elif p["k"] == "abi":
                 cands = [v for v in sc.get("abis", {}).get(p["t"], [])]
                 if not cands:
